@@ -79,7 +79,7 @@ theorem candidates_eq (cfg : Cfg) (bl : Bool) (B : Table) (p : Row) :
 theorem kept_eq (jt : JoinType) (cfg : Cfg) (bl : Bool) (B : Table) (p : Row) :
     (probeRow {} jt cfg bl B (buildTable {} (buildCols cfg bl) B) p).kept
       = (B.zipIdx.filter (fun e => matchBP cfg bl e.1 p)).map (·.2) := by
-  simp only [probeRow, candidates_eq, filter_map, filter_filter]
+  simp only [probeRow, Bool.false_and, Bool.false_eq_true, ↓reduceIte, candidates_eq, filter_map, filter_filter]
   congr 1
   apply filter_congr
   intro e he
@@ -379,7 +379,7 @@ theorem run_perm (parts : List (List Table)) :
     rw [← h]
     exact (batchRef_flatten jt cfg bl B parts'.flatten)
   unfold run
-  simp only [Bool.false_and, Bool.false_eq_true, ↓reduceIte]
+  simp only [Bool.false_and, Bool.or_false, Bool.false_eq_true, ↓reduceIte]
   split
   · exact key [parts.flatten] (by simp)
   · exact key parts rfl
